@@ -14,15 +14,16 @@
    (C03_closure_closed), build_loop yields the complete LR(0) collection and add_finals (private copy of the
    accepting state, synthesized final / after-EOI states) preserves what the LALR(1) theorems need
    (C03_reference_automaton_ok).  la_fix returns a stable table unless its fuel ran out (C03_la_fix_stable_or_fuel).
+   first_sets and nullable_set always reach their fixpoints (C03_first_sets_closed, C03_nullable_set_closed).
    Hence the reference's lookahead table is exactly LALR(1) under the LIGHT certificate ref_cert_light =
-   wf_grammar && ref_done && first_closed && la_stable (C03_reference_is_LALR1); only these four are still evaluated
-   per grammar.  NOT proved: that the fuel always suffices (ref_done / la_stable for the fuel 400 the glue uses:
-   the number of LR(0) states is exponential in the grammar in general) and that first_sets reaches its fixpoint. *)
+   wf_grammar && ref_done && la_stable (C03_reference_is_LALR1); only these three are still evaluated per grammar.
+   NOT proved: that the fuel always suffices (ref_done / la_stable for the fuel 400 the glue uses: the number of
+   LR(0) states is exponential in the grammar in general). *)
 From Coq Require Import List ZArith Bool.
 From TM Require Import Gram.Derive.
 From TM Require Import Gram.Cfg Gram.LalrRef Gram.Prec Gram.Prec_proofs Gram.PTables Gram.LalrTables.
 From TM Require Import Gram.LalrSpec Gram.LalrSpec_proofs Gram.LalrSpec_proofs2 Gram.LalrSpec_proofs3 Gram.LalrCert Gram.LalrCert_proofs Gram.LalrBuild_proofs Gram.LalrTables_proofs Gram.LalrRefute_proofs Gram.CfgFix_proofs.
-From TM Require Import Gram.LalrDone Gram.LalrClosure_proofs Gram.LalrFix_proofs Gram.LalrLoop_proofs Gram.LalrFinals_proofs Gram.LalrRef_proofs.
+From TM Require Import Gram.LalrDone Gram.FirstFix_proofs Gram.LalrClosure_proofs Gram.LalrFix_proofs Gram.LalrLoop_proofs Gram.LalrFinals_proofs Gram.LalrRef_proofs.
 Import ListNotations.
 Local Open Scope Z_scope.
 
@@ -75,7 +76,7 @@ Proof. exact lalr_la_complete. Qed.
 
 (* nullable_set always reaches its fixpoint when the rule heads are nonterminals in range (bounded inflationary
    iteration), so the nullable hypothesis of the completeness theorem can be dropped for such grammars.  (The
-   same for first_sets and for the fuel of closure is not proved; both are decided by the certificate.) *)
+   same for first_sets and for the fuel of closure: C03_first_sets_closed, C03_closure_closed below.) *)
 Theorem C03_nullable_set_closed :
   forall g, (forall r, In r (g_rules g) -> g_terms g <= r_lhs r < g_terms g + g_nonterms g) ->
   nullable_closed g (nullable_set g) = true.
@@ -111,6 +112,12 @@ Theorem C03_build_loop_sound :
 Proof. exact build_loop_sound. Qed.
 
 (* ---------- the certificate clauses as theorems about the reference construction ---------- *)
+(* first_sets always reaches its fixpoint within its S(N*T) rounds: FIRST is closed under the rules. *)
+Theorem C03_first_sets_closed :
+  forall g, (forall r, In r (g_rules g) -> g_terms g <= r_lhs r < g_terms g + g_nonterms g) ->
+  first_closed g (nullable_set g) (first_sets g) = true.
+Proof. exact first_sets_closed. Qed.
+
 (* closure always reaches its fixpoint within the S(N) rounds the model gives it (rule heads in range): the result
    contains, with every item [A -> alpha . B beta], all items [B -> . delta]. *)
 Theorem C03_closure_closed :
@@ -154,7 +161,7 @@ Theorem C03_reference_la_sound :
 Proof. exact ref_la_sound. Qed.
 
 (* Exactness under the light certificate (what the glue evaluates per grammar): grammar well-formed, work list
-   empty, FIRST closed, table stable. *)
+   empty, table stable. *)
 Theorem C03_reference_is_LALR1 :
   forall g fuel, ref_cert_light g fuel = true ->
   let a := fst (build_automaton g fuel) in
@@ -269,6 +276,7 @@ Example C03_light_certificate_on_the_classic_grammar :
   ref_cert_light (mkGrammar 2 1 [mkRule 2 [2; 1] 0; mkRule 2 [1] 0] [(2, true)] []) 200 = true.
 Proof. vm_compute. repeat split; reflexivity. Qed.
 
+Print Assumptions C03_first_sets_closed.
 Print Assumptions C03_closure_closed.
 Print Assumptions C03_build_loop_complete.
 Print Assumptions C03_reference_automaton_ok.
